@@ -21,7 +21,10 @@ def call_builtin(eng, fn, args, kwargs, fr):
     if name.startswith("m."):
         return call_method_builtin(eng, fn.recv, name[2:], args, kwargs, fr)
     if name.startswith("dict.") or name.startswith("list.") or name.startswith("object."):
-        return call_base_method(eng, fn.recv, name.split(".", 1)[0], name.split(".", 1)[1], args, kwargs, fr)
+        recv = fn.recv
+        if recv is None and args:          # unbound form: dict.clear(obj)
+            recv, args = args[0], list(args[1:])
+        return call_base_method(eng, recv, name.split(".", 1)[0], name.split(".", 1)[1], args, kwargs, fr)
     h = globals().get("bi_" + name.replace(".", "_"))
     if h is None:
         raise Unsupported("builtin %s" % name)
